@@ -84,18 +84,34 @@ def judgeHex (impl : Impl) (want : List Nat) : String :=
   | .ok _ => "FAIL:decode"
   | .other w => "FAIL:" ++ w
 
+/-- `judgeDurVal`, or an error when `lenient` (padded texts) -/
+def judgeDurValOrErr (lenient : Bool) (impl : Impl) (lo hi : Int) : String :=
+  match lenient, impl with
+  | true, .other "err" => "ok"
+  | _, _ => judgeDurVal impl lo hi
+
 /-- spec of a text handed to the parser: an offset, a text of the documented grammar, or nothing
-    demanded -/
-def judgeParse (impl : Impl) (s : List Nat) : String × String :=
+    demanded.  A text padded at the ends only must give the value of the trimmed text (the parser
+    trims); a text with runs of U+0020 inside must give the value of its unpadded form or an error; an
+    unpadded text must give the value.
+    Exact texts (every numeral a plain integer) must give exactly clamp(Σ n·unit). -/
+def judgeParse (impl : Impl) (s0 : List Nat) : String × String :=
+  let s := Hifi.Spec.DurText.unpad s0
+  -- padded inside (runs of blanks): value or error; padded at the ends only: the value (trim)
+  let padded := s != Hifi.Spec.DurText.trimEnds s0
+  let ptag := if padded then "padded:" else if s != s0 then "trimmed:" else ""
   match readOffset s with
-  | some v => (judgeDurVal impl v v, "offset")
+  | some v => (judgeDurValOrErr padded impl v v, ptag ++ "offset")
   | none =>
     match denote s with
     | some dn =>
-      if dn.lo < DMIN ∨ dn.hi > DMAX then ("na", "units:out_of_range")
-      else (judgeDurVal impl dn.lo dn.hi,
-            "units:" ++ (if dn.exact then "exact" else "fractional") ++ ":" ++ toString dn.items)
-    | none => ("na", "other")
+      if dn.exact then
+        (judgeDurValOrErr padded impl (clampD dn.lo) (clampD dn.hi),
+         ptag ++ "units:exact:" ++ toString dn.items ++ (if dn.lo < DMIN ∨ dn.hi > DMAX then ":saturated" else
+           if dn.hi ≥ 9007199254740992 ∨ dn.lo ≤ -9007199254740992 then ":wide" else ""))
+      else if dn.lo < DMIN ∨ dn.hi > DMAX then ("na", ptag ++ "units:out_of_range")
+      else (judgeDurValOrErr padded impl dn.lo dn.hi, ptag ++ "units:fractional:" ++ toString dn.items)
+    | none => ("na", ptag ++ "other")
 
 def judgeTotal (impl : Impl) : String :=
   match impl with
@@ -234,6 +250,12 @@ def handle (op : String) (args : List String) (impl : Impl) : Option Ans :=
       | some z => "ok " ++ toString z
       | none => "err"
     pure { model := m, spec := judgeTotalWord impl, branch := "lex_i64:" ++ (if m == "err" then "err" else "ok") }
+  | "lex_i128", [h] => do
+    let s := hex2cps h
+    let m := match parseI128 (utf8s s) with
+      | some z => "ok " ++ toString z
+      | none => "err"
+    pure { model := m, spec := judgeTotalWord impl, branch := "lex_i128:" ++ (if m == "err" then "err" else "ok") }
   | "lex_f64", [h] => do
     let s := hex2cps h
     let r := parseF64 (utf8s s)
